@@ -197,7 +197,17 @@ func main() {
 			}
 			json.Unmarshal(line, &probe)
 			var c Case
-			if probe.Mode == "hostile" {
+			if probe.Mode == "hostile-send" {
+				var hc HostileSendCase
+				if jerr := json.Unmarshal(line, &hc); jerr != nil {
+					fmt.Fprintln(out, `{"name":"?","note":"bad-case"}`)
+				} else {
+					r := runHostileSend(hc)
+					b, _ := json.Marshal(r)
+					out.Write(b)
+					out.WriteByte('\n')
+				}
+			} else if probe.Mode == "hostile" {
 				var hc HostileCase
 				if jerr := json.Unmarshal(line, &hc); jerr != nil {
 					fmt.Fprintln(out, `{"name":"?","note":"bad-case"}`)
